@@ -238,6 +238,39 @@ fn vertex_offset_checks(job: &Job, st: &mut Stats, nv: usize) {
             }
         }
     }
+    // a closure as vertex constructor gives the buffers of the Positions constructor; the NoOutput builder accepts the
+    // same calls (same success, no panic) and hands out consecutive vertex ids
+    {
+        st.inc("closure_and_no_output_runs");
+        let text = format!("closure constructor / NoOutput {:?}", job);
+        let r = catch(AssertUnwindSafe(|| {
+            let mut b1: VertexBuffers<Point, u32> = VertexBuffers::new();
+            let mut b2: VertexBuffers<Point, u32> = VertexBuffers::new();
+            let (ok1, ok2, ok3);
+            if is_stroke {
+                ok1 = exec_stroke_dyn(job, &mut BuffersBuilder::new(&mut b1, Positions)).is_ok();
+                ok2 = exec_stroke_dyn(job, &mut BuffersBuilder::new(&mut b2, |v: lyon_tessellation::StrokeVertex| v.position())).is_ok();
+                ok3 = exec_stroke_dyn(job, &mut lyon_tessellation::geometry_builder::NoOutput::new()).is_ok();
+            } else {
+                ok1 = exec_fill_dyn(job, &mut BuffersBuilder::new(&mut b1, Positions)).is_ok();
+                ok2 = exec_fill_dyn(job, &mut BuffersBuilder::new(&mut b2, |v: lyon_tessellation::FillVertex| v.position())).is_ok();
+                ok3 = exec_fill_dyn(job, &mut lyon_tessellation::geometry_builder::NoOutput::new()).is_ok();
+            }
+            let same = b1.indices == b2.indices && b1.vertices.len() == b2.vertices.len() && b1.vertices.iter().zip(b2.vertices.iter()).all(|(p, q)| p.x.to_bits() == q.x.to_bits() && p.y.to_bits() == q.y.to_bits());
+            (ok1, ok2, ok3, same)
+        }));
+        match r {
+            None => st.fail(jobj(&[("what", jstr("tessellation into a closure-constructed BuffersBuilder or NoOutput panicked")), ("input", jstr(&text))])),
+            Some((ok1, ok2, ok3, same)) => {
+                if ok1 != ok2 || !same {
+                    st.fail(jobj(&[("what", jstr("a closure vertex constructor gives different buffers than Positions")), ("input", jstr(&text))]));
+                }
+                if ok1 != ok3 {
+                    st.fail(jobj(&[("what", jstr("NoOutput succeeds / fails where BuffersBuilder does not")), ("input", jstr(&text))]));
+                }
+            }
+        }
+    }
     for fail_at in [None, Some(1usize)] {
         if let Some(k) = fail_at {
             if k >= nv {
